@@ -137,17 +137,33 @@ func nriHooks(in []AdjHook) []*api.Hook {
 // ToNRI builds a fresh protobuf adjustment (nothing is shared with a).
 func (a *Adj) ToNRI() *api.ContainerAdjustment {
 	n := &api.ContainerAdjustment{}
+	// Removals are requested the way a plugin does it, through the api helpers
+	// (RemoveAnnotation / RemoveEnv / RemoveMount / MarkForRemoval), with the item's name as
+	// the harness reads it off the marker convention: one leading "-" marks, the rest is the
+	// name (which may itself begin with a dash).
 	if a.Annotations != nil {
 		n.Annotations = map[string]string{}
 		for k, v := range a.Annotations {
-			n.Annotations[k] = v
+			if name, rm := marked(k); rm {
+				n.RemoveAnnotation(name)
+			} else {
+				n.AddAnnotation(k, v)
+			}
 		}
 	}
 	for _, e := range a.Env {
-		n.Env = append(n.Env, &api.KeyValue{Key: e.K, Value: e.V})
+		if name, rm := marked(e.K); rm {
+			n.RemoveEnv(name)
+		} else {
+			n.AddEnv(e.K, e.V)
+		}
 	}
 	for _, m := range a.Mounts {
-		n.Mounts = append(n.Mounts, &api.Mount{Destination: m.Dest, Type: m.Type, Source: m.Source, Options: append([]string(nil), m.Options...)})
+		if name, rm := marked(m.Dest); rm {
+			n.RemoveMount(name)
+		} else {
+			n.AddMount(&api.Mount{Destination: m.Dest, Type: m.Type, Source: m.Source, Options: append([]string(nil), m.Options...)})
+		}
 	}
 	n.Args = append([]string(nil), a.Args...)
 	if h := a.Hooks; h != nil {
@@ -172,6 +188,10 @@ func (a *Adj) ToNRI() *api.ContainerAdjustment {
 	l := &api.LinuxContainerAdjustment{CgroupsPath: a.CgroupsPath}
 	n.Linux = l
 	for _, d := range a.Devices {
+		if name, rm := marked(d.Path); rm {
+			l.Devices = append(l.Devices, &api.LinuxDevice{Path: api.MarkForRemoval(name)})
+			continue
+		}
 		nd := &api.LinuxDevice{Path: d.Path, Type: d.Type, Major: d.Major, Minor: d.Minor}
 		if d.FileMode != nil {
 			nd.FileMode = &api.OptionalFileMode{Value: *d.FileMode}
